@@ -49,10 +49,10 @@ Soft(e) ==
     LET d == Delta(cur.pts, cur.labels, e.y, e.k, cur.b)
         ds == IF d >= 0 THEN d \div e.C ELSE -((-d) \div e.C)
         informative == Abs(ds) >= 500 /\ e.q # 0
-    IN /\ Chk(d <= cur.slack \/ e.q > 0, "llr_positive_when_a_zero_labelled_point_is_nearer")
-       /\ Chk(d >= -cur.slack \/ e.q < 0, "llr_negative_when_a_one_labelled_point_is_nearer")
+    IN /\ Chk(d <= cur.slack \/ e.sg > 0, "llr_positive_when_a_zero_labelled_point_is_nearer")
+       /\ Chk(d >= -cur.slack \/ e.sg < 0, "llr_negative_when_a_one_labelled_point_is_nearer")
        /\ IF kap = <<0, 0>>
-          THEN kap' = IF informative /\ Sgn(e.q) = Sgn(ds) THEN <<e.q, ds>> ELSE kap
+          THEN kap' = IF informative /\ Sgn(e.q) = Sgn(ds) /\ PrintT(<<"KAPPA", e.tid, e.q, ds>>) THEN <<e.q, ds>> ELSE kap
           ELSE /\ kap' = kap
                /\ Chk(Abs(e.q * kap[2] - kap[1] * ds) <= Abs(kap[1] * kap[2]) \div 100 + Abs(kap[2]) + 2 * Abs(kap[1]) + 10,
                       "llr_is_fixed_multiple_of_distance_difference_over_noise_variance")
